@@ -475,7 +475,7 @@ async fn child(dir: PathBuf, spec: PathBuf, mode: u8, k: u64, out: PathBuf) {
                         n._local_id = None;
                         n._json = n._json.map(|j| j.replace("\"SP\"", &format!("\"L{}\"", l)));
                         n.sign(&sk).unwrap();
-                        nodes.push(NodeToInsert { id: n.id, node: Some(n), entity_name: None, index: true, old_room_id: None, old_mdate: 0, old_verifying_key: None, old_local_id: None, old_fts_str: None, node_fts_str: None });
+                        nodes.push(NodeToInsert { id: n.id, node: Some(n), entity_name: None, index: true, old_room_id: None, old_entity: None, old_mdate: 0, old_verifying_key: None, old_local_id: None, old_fts_str: None, node_fts_str: None });
                     }
                     let (reply, recv) = tokio::sync::oneshot::channel();
                     let _ = svc.sender.send(DbMessage::AddNodes(room_id, nodes, reply)).await;
